@@ -146,8 +146,9 @@ def run(ctx):
             an = dict(x="sliced", a=dict(x="leaf", tree=pt, decl=["SelfAdjoint"]), rs=rs, cs=cs, ia=ia, same=c05.same_sel(rs, cs, ia), decl=[])
             t = dict(k="Sliced", a=pt, rs=rs, cs=cs, ia=ia)
             declared = False
-        elif rnd.random() < 0.07:
-            t = T.near_real_tree(gen, rnd)     # almost-real complex payloads: tolerance-based Hermitian tests must not fire
+        elif rnd.random() < 0.10:
+            # almost-real complex payloads / almost-symmetric matrices: tolerance-based Hermitian or symmetry tests must not fire
+            t = T.near_real_tree(gen, rnd) if rnd.random() < 0.5 else T.near_sym_tree(gen, rnd)
             declared = False
         elif declared:
             t = herm_tree(gen, rnd, cplx)
